@@ -24,6 +24,8 @@ CONSTANTS NW,        \* threads_max
           TailSz,    \* size of Index + Stream Footer (2 units in model checking)
           MaxUpdates, \* how often the application may call lzma_filters_update()
           MaxReinit, \* how often the application may re-initialise the handle without lzma_end()
+          BSChoices, \* block sizes a re-initialisation may ask for (BS is the first one)
+          FixBlockSize, \* BOOLEAN: TRUE = re-initialisation with a different block_size frees the worker threads and their thr->in buffers like a changed thread count does (repaired tree); FALSE = xz 5.8.1 as released: the old buffers are reused
           FixLostWorker, \* BOOLEAN: TRUE = the tree after commit 49f83e5 (stopped-before-started workers return themselves, re-init waits for quiescence); FALSE = xz 5.8.1 as released
           CountCalls \* BOOLEAN: count lzma_code calls (history variable for bounding; FALSE for liveness checking)
 
@@ -50,10 +52,13 @@ MInit == [pc |-> "out", act |-> "RUN", inAvail |-> 0, given |-> 0, outSpace |-> 
           cacheChain |-> -1,     \* coder->filters_cache: the chain copied for the next Block, or -1 if empty
           blkChain |-> <<>>,     \* the chain each Block was started with
           chainBase |-> 0,       \* chain version at the last (re-)initialisation
-          updates |-> 0, lastUpdateRet |-> "none"]
+          updates |-> 0, lastUpdateRet |-> "none",
+          bs |-> BS,             \* coder->block_size
+          nbs |-> BS]            \* block_size asked for by the re-initialisation in progress
 CInit == [free |-> <<>>, threadErr |-> "OK", outq |-> <<>>, readPos |-> 0, sigM |-> FALSE, progressIn |-> 0]
 TInit == [state |-> "IDLE", inSize |-> 0, sig |-> FALSE, pc |-> "none", blk |-> 0, inPos |-> 0, snapIn |-> 0,
           snapState |-> "IDLE", result |-> "IDLE", progressIn |-> 0, incompr |-> FALSE, waiterMain |-> FALSE,
+          cap |-> 0,              \* size of the thr->in allocation (initialize_new_thread: coder->block_size at that time)
           assigned |-> FALSE]     \* ghost: taken from the free stack / created, not yet returned to it
 
 Init == m = MInit /\ c = CInit /\ t = [w \in W |-> TInit]
@@ -153,7 +158,7 @@ GtCreate ==
     /\ m.pc = "gtcreate"
     /\ LET w == m.nInit + 1 IN
        /\ m' = [m EXCEPT !.thr = w, !.nInit = w, !.pc = "gtstart"]
-       /\ t' = [t EXCEPT ![w] = [TInit EXCEPT !.pc = "top", !.assigned = TRUE]]
+       /\ t' = [t EXCEPT ![w] = [TInit EXCEPT !.pc = "top", !.assigned = TRUE, !.cap = m.bs]]
     /\ UNCHANGED c
 
 \* get_thread(): thr.mutex: state := RUN, in_size := 0, lzma_outq_get_buf, signal
@@ -178,9 +183,9 @@ Publish ==
     /\ m.pc = "publish"
     /\ LET w == m.thr
            b == m.nblk
-           n == Min(m.inAvail, BS - m.blkLen[b])
+           n == Min(m.inAvail, m.bs - m.blkLen[b])
            len == m.blkLen[b] + n
-           finish == len = BS \/ (m.inAvail - n = 0 /\ m.act # "RUN")
+           finish == len = m.bs \/ (m.inAvail - n = 0 /\ m.act # "RUN")
        IN IF t[w].state = "IDLE" THEN
               \* the Block's worker failed; the copied bytes are lost with it (in_pos was advanced by lzma_bufcpy)
               /\ m' = [m EXCEPT !.inAvail = @ - n, !.progress = (m.progress \/ n > 0), !.pc = "blkerr"]
@@ -189,7 +194,7 @@ Publish ==
               /\ t' = SigW([t EXCEPT ![w].inSize = len, ![w].state = IF finish THEN "FINISH" ELSE @], w)
               /\ m' = [m EXCEPT !.inAvail = @ - n, !.progress = (m.progress \/ n > 0),
                                 !.blkLen = [m.blkLen EXCEPT ![b] = len],
-                                !.closedAt = IF finish /\ len < BS THEN m.closedAt \cup {m.blkStart[b] + len} ELSE m.closedAt,
+                                !.closedAt = IF finish /\ len < m.bs THEN m.closedAt \cup {m.blkStart[b] + len} ELSE m.closedAt,
                                 !.thr = IF finish THEN 0 ELSE @, !.pc = "encin"]
               /\ UNCHANGED c
 
@@ -237,10 +242,16 @@ StopStep ==
 \* lzma_end(): stream_encoder_mt_init() calls threads_stop(coder, true): STOP + signal each thread, then wait on each
 \* thr.cond until its state is IDLE; then the queue, the Index, thread_error, coder->thr and the progress counters are
 \* reset.  The stack of free threads is NOT rebuilt: a worker returns itself to it after worker_encode().
-AppReinit ==
+\* With a different block_size the repaired tree takes the path of a changed thread count instead: threads_end()
+\* (EXIT + signal, join, free every thr->in) and the threads are created again on demand with buffers of the new size.
+AppReinit(nbs) ==
     /\ m.pc = "out" /\ m.reinits < MaxReinit
-    /\ m' = [m EXCEPT !.pc = "rstop", !.loopI = 0, !.reinits = @ + 1]
+    /\ m' = [m EXCEPT !.pc = IF FixBlockSize /\ nbs # m.bs THEN "rendsig" ELSE "rstop", !.loopI = 0, !.reinits = @ + 1, !.nbs = nbs]
     /\ UNCHANGED <<c, t>>
+Reinitialised(nInit) ==
+    [MInit EXCEPT !.nInit = nInit, !.calls = m.calls, !.reinits = m.reinits, !.tailSz = m.tailSz, !.chain = m.chain + 1,
+                  !.chainBase = m.chain + 1, !.updates = m.updates, !.orderOk = m.orderOk, !.progressOk = m.progressOk,
+                  !.bs = m.nbs, !.nbs = m.nbs]
 RStop ==
     /\ m.pc = "rstop"
     /\ IF m.loopI < m.nInit
@@ -258,8 +269,7 @@ RWait ==
             \* repaired tree: additionally wait (coder.mutex / coder.cond) until every thread has returned itself to
             \* the stack of free threads, i.e. has finished touching the coder and its output buffer
             THEN m' = [m EXCEPT !.pc = "rqpark"] /\ UNCHANGED <<c, t>>
-       ELSE /\ m' = [MInit EXCEPT !.nInit = m.nInit, !.calls = m.calls, !.reinits = m.reinits, !.tailSz = m.tailSz, !.chain = m.chain + 1, !.chainBase = m.chain + 1, !.updates = m.updates,
-                                  !.orderOk = m.orderOk, !.progressOk = m.progressOk]
+       ELSE /\ m' = Reinitialised(m.nInit)
             /\ c' = [c EXCEPT !.outq = <<>>, !.readPos = 0, !.threadErr = "OK", !.progressIn = 0, !.sigM = FALSE]
             /\ UNCHANGED t
 RQuiesceWake ==
@@ -271,17 +281,21 @@ RWaitWake ==
 
 \* lzma_end(): threads_end(): EXIT + signal each, then join each
 AppEnd == /\ m.pc = "out" /\ m' = [m EXCEPT !.pc = "endsig", !.loopI = 0] /\ UNCHANGED <<c, t>>
+\* (pc "rendsig" / "rendjoin": the same function called from stream_encoder_mt_init(), after which the coder is
+\* reinitialised with no threads)
 EndSignal ==
-    /\ m.pc = "endsig"
+    /\ m.pc \in {"endsig", "rendsig"}
     /\ IF m.loopI < m.nInit
        THEN /\ t' = SigW([t EXCEPT ![m.loopI + 1].state = "EXIT"], m.loopI + 1) /\ m' = [m EXCEPT !.loopI = @ + 1]
-       ELSE /\ m' = [m EXCEPT !.pc = "endjoin", !.loopI = 0] /\ UNCHANGED t
+       ELSE /\ m' = [m EXCEPT !.pc = IF m.pc = "endsig" THEN "endjoin" ELSE "rendjoin", !.loopI = 0] /\ UNCHANGED t
     /\ UNCHANGED c
 EndJoin ==
-    /\ m.pc = "endjoin"
+    /\ m.pc \in {"endjoin", "rendjoin"}
     /\ IF m.loopI < m.nInit
        THEN /\ t[m.loopI + 1].pc = "exited" /\ m' = [m EXCEPT !.loopI = @ + 1] /\ UNCHANGED <<c, t>>
-       ELSE /\ m' = [m EXCEPT !.pc = "freed", !.nInit = 0, !.loopI = 0] /\ UNCHANGED <<c, t>>
+       ELSE IF m.pc = "endjoin"
+       THEN /\ m' = [m EXCEPT !.pc = "freed", !.nInit = 0, !.loopI = 0] /\ UNCHANGED <<c, t>>
+       ELSE /\ m' = Reinitialised(0) /\ c' = CInit /\ t' = [w \in W |-> TInit]
 
 \* lzma_filters_update() between two calls (stream_encoder_mt_update): refused in the Index / Footer and while a
 \* Block is open; otherwise the new chain replaces coder->filters and the cached copy is dropped
@@ -407,7 +421,7 @@ Main == Run \/ BlkRead \/ EncIn \/ GtPop \/ GtCreate \/ GtStart \/ Copy \/ Publi
         \/ WaitTimeout \/ StopStep \/ EndSignal \/ EndJoin \/ RStop \/ RWait \/ RWaitWake \/ RQuiesceWake
 
 App == \/ \E a \in {"RUN", "FINISH"} \cup FlushActs, g \in Gives, s \in Spaces : Call(a, Min(g, Total - m.given), s)
-       \/ AppEnd \/ AppReinit \/ GetProgress \/ FiltersUpdate
+       \/ AppEnd \/ (\E nbs \in BSChoices : AppReinit(nbs)) \/ GetProgress \/ FiltersUpdate
 
 Terminated == m.pc = "freed"
 Next == Main \/ (\E w \in W : Worker(w)) \/ App \/ (Terminated /\ UNCHANGED vars)
